@@ -211,6 +211,10 @@ func (cr *CheckRun) classify() {
 			}
 		}
 	}
+	if cr.Verdict == "other" && curRC != nil {
+		// an error report in words this harness does not know: its vocabulary is out of date, nothing can be judged
+		curRC.V(viol("harness", "unrecognised-report", "Check reported an error in words this harness does not know: %q", oneLine(cr.VerdictText, 200)))
+	}
 	seenRandom := false
 	seenRepro := false
 	for _, inv := range w.Invs {
@@ -307,7 +311,7 @@ func (cr *CheckRun) Shape() uint64 {
 }
 
 var reDur = regexp.MustCompile(`\(([0-9.]+(ns|µs|ms|s|m|h))+\)`)
-var reFFName = regexp.MustCompile(`-\d{14}-\d+((-c\d+)?\.fail)`)
+var reFFName = regexp.MustCompile(`-\d[0-9A-Za-z.:_]{7,40}-\d+((-c\d+)?\.fail)`) // <time stamp in any digits-first format>-<pid>
 
 func NormText(s string) string {
 	s = reDur.ReplaceAllString(s, "(DUR)")
@@ -378,6 +382,28 @@ func (cr *CheckRun) LoggedDraws(afterSeq int) []DrawRec {
 		}
 	}
 	return out
+}
+
+// drawLogInOtherWords: no "[rapid] draw L: V" line was found between the two TB sequence numbers although draws were
+// received - but every received value IS printed there, in order, in lines of some other shape: the format of the draw
+// log changed (harness vocabulary out of date: trouble), as opposed to the draws not being logged (a violation).
+func (cr *CheckRun) drawLogInOtherWords(afterSeq, beforeSeq int, received []DrawRec) bool {
+	if len(received) == 0 {
+		return false
+	}
+	i := 0
+	for _, c := range cr.W.TB.Calls {
+		if c.Seq <= afterSeq || (beforeSeq > 0 && c.Seq >= beforeSeq) || (c.Method != "Logf" && c.Method != "Log") {
+			continue
+		}
+		if strings.HasPrefix(c.Text, "[rapid] draw ") {
+			return false
+		}
+		if i < len(received) && strings.Contains(c.Text, received[i].Text) {
+			i++
+		}
+	}
+	return i == len(received)
 }
 
 // Violation of one rule of one property.
